@@ -33,6 +33,9 @@ TRUSTED = [
     "the operator is abstract in the theorems (any function of digit lists); linearity of the implementation in the operator "
     "is not proved, it is sampled (coded operator, matrix units, random dense operators)",
     "Gate.get_qobj(dims=...) and Pulse.get_ideal_qobj(dims) are covered by the oracle only (they delegate to expand_operator)",
+    "tables (all (x,y) pairs of a case) with more than 300 (quick) / 150 (thorough) nonzero entries are compared through the "
+    "entry count and two 61-bit polynomial hashes of the row-major cell sequence, computed by Coq on the model's table and by "
+    "the harness on the implementation's matrix; smaller tables entry by entry",
 ]
 ASSUMES = [
     "calls of the form expand_operator(oper, dims=dims, targets=targets[, dtype]); the deprecated N= and cyclic_permutation= "
@@ -500,7 +503,7 @@ def load_corpus():
 # model evaluation
 # ------------------------------------------------------------------------------------------------
 TABLE_MAX_D = 256          # full table (all (x,y) pairs) from Coq up to this total dimension
-TABLE_MAX_D_THOROUGH = 432
+TABLE_MAX_D_THOROUGH = 1024
 TABLE_LIMIT = 300            # tables with more nonzero entries come back as a digest (see Model/Expand.v)
 HASH_P = 2305843009213693951
 HASH_B = (2 ** 31 + 1, 2 ** 37 + 2 ** 11 + 1)
